@@ -161,6 +161,13 @@ inline Node gen_node(const SchemaShape& sh, int level, sim::Rng& r, const TreePa
         {
             static const unsigned deltas[] = {1, 2, 3, 8, 13};
             u64 ext = g.wire_bl + deltas[r.below(5)];
+            // sometimes extend up to a value around a signed/unsigned boundary of the narrower integer types
+            if(r.chance(1, 4))
+            {
+                static const u64 bounds[] = {126, 127, 128, 129, 254, 255, 256, 257, 32767, 32768, 32769};
+                const u64 b = bounds[r.below(depth == 0 ? 11 : 8)];
+                if(b > g.wire_bl) ext = b;
+            }
             if(ext <= (width_mask(h.block_length.width) - 1)) g.wire_bl = ext;
         }
         unsigned cnt;
@@ -171,6 +178,7 @@ inline Node gen_node(const SchemaShape& sh, int level, sim::Rng& r, const TreePa
         default: cnt = (unsigned)r.below(tp.max_count + 1); break;
         }
         if(depth >= 2 && cnt > 2) cnt = 2;
+        if(g.wire_bl > 1000 && cnt > 2) cnt = 2; // keep frames well inside the arena window
         cnt = (unsigned)std::min<u64>(cnt, width_mask(h.num_in_group.width) - 1);
         for(unsigned i = 0; i < cnt; i++) g.entries.push_back(gen_node(sh, gs.level, r, tp, g.wire_bl, depth + 1));
         n.groups.push_back(std::move(g));
@@ -197,6 +205,12 @@ inline Frame gen_frame(const SchemaShape& sh, int msg, sim::Rng& r, const TreePa
     {
         static const unsigned deltas[] = {1, 2, 3, 8, 21};
         u64 ext = bl + deltas[r.below(5)];
+        if(r.chance(1, 5))
+        {
+            static const u64 bounds[] = {127, 128, 255, 256, 32767, 32768, 65535, 65536};
+            const u64 b = bounds[r.below(8)];
+            if(b > bl) ext = b;
+        }
         if(ext <= width_mask(sh.msg_header.block_length.width) - 1) bl = ext;
     }
     f.root = gen_node(sh, level, r, tp, bl, 0);
